@@ -122,7 +122,7 @@ def detect_order():
         return "lex"
     if hit == 1 + 3 * 5:
         return "colmajor"
-    raise core.Machinery("interpolate() flattens the 2-D node (1, 3) of a 5 x 7 grid to %d: neither convention" % hit)
+    return "invalid:%d" % hit      # neither convention: a grid-index flattening that is not a bijection of the grid (reported by run)
 
 
 def detect_skikron():
@@ -538,6 +538,14 @@ def run(ck):
     core.setup_torch()
     rnd = random.Random(ck.seed)
     order, skikron = detect_order(), detect_skikron()
+    if order.startswith("invalid"):
+        # property level: the interpolation indices must address the nodes of the grid the kernel is built on
+        ck.violation("C09/interp/flattening/not-a-grid-enumeration",
+                     "interpolate() flattens the 2-D node (1, 3) of a 5 x 7 grid to %s, which is neither the last-dimension-fastest nor the "
+                     "first-dimension-fastest enumeration of the 35 nodes: the weights address other nodes than the ones they were computed for" % order.split(":")[1],
+                     dict(grid=[5, 7], node=[1, 3]))
+        ck.case(["interp-flattening"], True)
+        return
     ck.rule = ("exact cases = every state of Structured.tla parts kron / index / grid (whole small domains) and sgpr (rational instances) and every lattice target "
                "of Interp.tla (step 1/4 over 1-D and 2-D integer grids), each replayed into the real kernel / interpolate() / SGPR model against TLC's exact "
                "matrix, indices, weights, posterior and bound pieces; seeded float grids / targets for interpolate() (sum, nodes, quadratics); float cells = seeded "
